@@ -43,6 +43,10 @@ kf("C08", "C08-module-const-alias-constructor", "a module-scope constant initial
 kf("C08", "C08-hlsl-subgroup-bool-store", "HLSL backend rejects `out[lid] = u32(subgroupAll(c))` / `subgroupAny` (\"writeStorageStore: cannot resolve type\"); the other backends accept it",
    ["C08|hlsl|*|hlsl: writeStorageStore: cannot resolve type|F9/subgroupA*/bool/*"])
 
+kf("C08", "C08-validator-break-in-nested-loop-in-continuing", "ir.Validate reported \"break in continuing block\" / \"continue in continuing block\" for break/continue of a loop NESTED inside a continuing block (they target the nested loop, which WGSL allows)",
+   ["C08|validate|-|in function *: break in continuing block|*", "C08|compile|default|validation failed: in function *: break in continuing block|*",
+    "C08|validate|-|in function *: continue in continuing block|*", "C08|compile|default|validation failed: in function *: continue in continuing block|*"], "fixed:e71b790")
+
 # ---------------------------------------------------------------- C01 (SPIR-V semantics)
 kf("C01", "C01-fmod", "f32 `%` is emitted as OpFMod (floored, sign of divisor); WGSL prescribes the truncated remainder (sign of dividend), e.g. -7.5 % 2.0 gives 0.5 instead of -1.5",
    ["C01|F1/bin/%/*f32*|*|mismatch"])
@@ -273,8 +277,8 @@ kf("C13", "C13-mem2reg-loop-carried", "mem2reg's single-block promotion treats a
    ["C13|behaviour|mem2reg|non-termination|*", "C13|behaviour|dxil-pipeline|non-termination|*"])
 kf("C13", "C13-mem2reg-not-idempotent", "running mem2reg (or the DXIL pipeline) a second time changes the module again (appends expressions), contrary to its documented idempotence",
    ["C13|not-idempotent|mem2reg|*", "C13|not-idempotent|dxil-pipeline|*"])
-kf("C13", "C13-dce-after-inline", "dce applied to an inlined module removes or reorders statements differently on a second run and, for a callee that only calls another helper (F2/callee/H), changes the computed result",
-   ["C13|not-idempotent|dce|*", "C13|behaviour|dce|different-result|F2/callee/*"])
+kf("C13", "C13-dce-after-inline", "dce applied to an inlined module removes or reorders statements differently on a second run and, when a function calls a helper as a statement (`h(c0);`, whose only effect is on a private variable), changes the computed result",
+   ["C13|not-idempotent|dce|*", "C13|behaviour|dce|different-result|F2/callee/*", "C13|behaviour|dce|different-result|F2L/*/H*"])
 kf("C13", "C13-mem2reg-store-before-loop", "mem2reg loses the value a local holds when a loop is entered if the loop's continuing block also stores to that local: `a = a * 31u + 1u; loop { ...; break; continuing { a = a * 31u + 3u; break if c; } } use(a)` reads a wrong value after the loop even when the continuing block never runs; reached also through the DXIL pipeline",
    ["C13|behaviour|mem2reg|different-result|F2L/*/l", "C13|behaviour|dxil-pipeline|different-result|F2L/*/l", "C13|behaviour|mem2reg|different-result|F2L/*/el", "C13|behaviour|dxil-pipeline|different-result|F2L/*/el"])
 
